@@ -112,8 +112,89 @@ fn explore_one(case: &Case, sib: &Case, other: &Case, depth: usize, seed: u64) -
     Some(FamResult { label: case.label.clone(), sequences: seqs, calls, states: states.len() as u64, viol, distinct_results: distinct.len() })
 }
 
+/// `x.sample(..)` / `x.sample_iter(..)` written with method syntax on the concrete type (where an inherent method
+/// would take precedence over the trait's) must agree with the trait-qualified calls on the same stream.
+fn concrete_calls(rep: &Report, seed: u64) -> u64 {
+    use crate::sampler::{Out, VecOut};
+    use rand_distr::weighted::{WeightedAliasIndex, WeightedTreeIndex};
+    use rand_distr::*;
+    let mut n = 0u64;
+    macro_rules! chk {
+        ($name:expr, $ty:ty, $x:expr, $bits:expr) => {{
+            let x = $x;
+            let words = base_words(seed ^ crate::report::fnv($name.as_bytes()), 64);
+            let r = std::panic::catch_unwind(std::panic::AssertUnwindSafe(|| crate::exec::in_subject(|| {
+                let bits = $bits;
+                let mut r0 = ScriptRng::new(&words, 0);
+                let a: Vec<u64> = (0..6).map(|_| { let v: $ty = Distribution::<$ty>::sample(&x, &mut r0); bits(&v) }).collect();
+                let mut r1 = ScriptRng::new(&words, 0);
+                let b: Vec<u64> = (0..6).map(|_| { let v: $ty = x.sample(&mut r1); bits(&v) }).collect();
+                let mut r2 = ScriptRng::new(&words, 0);
+                let c: Vec<u64> = x.clone().sample_iter(&mut r2).take(6).map(|v: $ty| bits(&v)).collect();
+                (a, r0.pos, b, r1.pos, c, r2.pos)
+            })));
+            n += 3;
+            if let Ok((a, pa, b, pb, c, pc)) = r {
+                if a != b || pa != pb {
+                    rep.violation(format!("{}|method-sample|{}", $name, $name), format!("{}: x.sample(rng) yields {:x?} (cursor {}), Distribution::sample(&x, rng) yields {:x?} (cursor {})", $name, b, pb, a, pa), json!({"case": $name, "kind": "method-sample"}));
+                }
+                if a != c || pa != pc {
+                    rep.violation(format!("{}|method-sample_iter|{}", $name, $name), format!("{}: x.sample_iter(rng) yields {:x?} (cursor {}), repeated sample() yields {:x?} (cursor {})", $name, c, pc, a, pa), json!({"case": $name, "kind": "method-sample_iter"}));
+                }
+            }
+        }};
+    }
+    let s64 = |v: &f64| Out::bits(*v);
+    let s32 = |v: &f32| Out::bits(*v);
+    let su = |v: &u64| *v;
+    let sz = |v: &usize| *v as u64;
+    chk!("StandardNormal<f64>", f64, StandardNormal, s64);
+    chk!("StandardNormal<f32>", f32, StandardNormal, s32);
+    chk!("Exp1<f64>", f64, Exp1, s64);
+    chk!("Normal<f64>", f64, Normal::new(1.0f64, 2.0).unwrap(), s64);
+    chk!("LogNormal<f64>", f64, LogNormal::new(0.5f64, 1.0).unwrap(), s64);
+    chk!("Exp<f64>", f64, Exp::new(2.0f64).unwrap(), s64);
+    chk!("Gamma<f64>", f64, Gamma::new(2.5f64, 3.0).unwrap(), s64);
+    chk!("Gamma<f32>(small)", f32, Gamma::new(0.5f32, 3.0).unwrap(), s32);
+    chk!("ChiSquared<f64>", f64, ChiSquared::new(3.0f64).unwrap(), s64);
+    chk!("StudentT<f64>", f64, StudentT::new(4.0f64).unwrap(), s64);
+    chk!("FisherF<f64>", f64, FisherF::new(3.0f64, 5.0).unwrap(), s64);
+    chk!("Beta<f64>", f64, Beta::new(2.0f64, 3.0).unwrap(), s64);
+    chk!("Beta<f32>(bc)", f32, Beta::new(0.5f32, 0.7).unwrap(), s32);
+    chk!("Pert<f64>", f64, Pert::new(0.0f64, 5.0).with_mode(2.5).unwrap(), s64);
+    chk!("Triangular<f64>", f64, Triangular::new(0.0f64, 5.0, 2.5).unwrap(), s64);
+    chk!("Cauchy<f64>", f64, Cauchy::new(2.0f64, 5.0).unwrap(), s64);
+    chk!("Pareto<f64>", f64, Pareto::new(1.0f64, 2.0).unwrap(), s64);
+    chk!("Weibull<f64>", f64, Weibull::new(1.0f64, 2.0).unwrap(), s64);
+    chk!("Gumbel<f64>", f64, Gumbel::new(0.0f64, 1.0).unwrap(), s64);
+    chk!("Frechet<f64>", f64, Frechet::new(0.0f64, 1.0, 2.0).unwrap(), s64);
+    chk!("SkewNormal<f64>", f64, SkewNormal::new(0.0f64, 1.0, 2.0).unwrap(), s64);
+    chk!("InverseGaussian<f64>", f64, InverseGaussian::new(1.0f64, 2.0).unwrap(), s64);
+    chk!("NormalInverseGaussian<f64>", f64, NormalInverseGaussian::new(2.0f64, 1.0).unwrap(), s64);
+    chk!("Binomial(btpe)", u64, Binomial::new(200, 0.3).unwrap(), su);
+    chk!("Binomial(binv)", u64, Binomial::new(20, 0.3).unwrap(), su);
+    chk!("Poisson<f64>(knuth)", f64, Poisson::new(4.0f64).unwrap(), s64);
+    chk!("Poisson<f64>(rejection)", f64, Poisson::new(40.0f64).unwrap(), s64);
+    chk!("Geometric", u64, Geometric::new(0.3).unwrap(), su);
+    chk!("StandardGeometric", u64, StandardGeometric, su);
+    chk!("Hypergeometric(hin)", u64, Hypergeometric::new(60, 24, 7).unwrap(), su);
+    chk!("Hypergeometric(h2pe)", u64, Hypergeometric::new(6000, 2400, 700).unwrap(), su);
+    chk!("Zipf<f64>", f64, Zipf::new(10.0f64, 1.5).unwrap(), s64);
+    chk!("Zeta<f64>", f64, Zeta::new(1.5f64).unwrap(), s64);
+    chk!("UnitCircle<f64>", [f64; 2], UnitCircle, |v: &[f64; 2]| v.hash_bits());
+    chk!("UnitDisc<f64>", [f64; 2], UnitDisc, |v: &[f64; 2]| v.hash_bits());
+    chk!("UnitSphere<f64>", [f64; 3], UnitSphere, |v: &[f64; 3]| v.hash_bits());
+    chk!("UnitBall<f32>", [f32; 3], UnitBall, |v: &[f32; 3]| v.hash_bits());
+    chk!("Dirichlet<f64>(gamma)", Vec<f64>, rand_distr::multi::Dirichlet::new(&[1.0f64, 2.0, 3.0]).unwrap(), |v: &Vec<f64>| v.hash_bits());
+    chk!("WeightedAliasIndex<u32>", usize, WeightedAliasIndex::new(vec![1u32, 2, 3, 0, 5]).unwrap(), sz);
+    chk!("WeightedTreeIndex<u32>", usize, WeightedTreeIndex::new(vec![1u32, 2, 3, 0, 5]).unwrap(), sz);
+    n
+}
+
 pub fn run(tier: Tier, seed: u64) -> i32 {
     let rep = Report::new("C14", "model_checking", if tier == Tier::Quick { "quick" } else { "thorough" }, seed);
+    let concrete = concrete_calls(&rep, seed);
+    rep.set("concrete_type_method_calls", json!(concrete));
     let all = all_cases(tier, seed);
     // one distinct sampler per (family, type, parameters); skip the constant ones
     let mut seen = std::collections::BTreeSet::new();
